@@ -63,7 +63,8 @@ fn main() {
             let workers: u64 = args[5].parse().unwrap();
             let index: u64 = args[6].parse().unwrap();
             let only = args.get(8).and_then(|s| s.parse::<u64>().ok());
-            engine::worker_main(def, tier, seed, workers, index, Path::new(&args[7]), only);
+            let start = args.get(9).and_then(|s| s.parse::<u64>().ok()).unwrap_or(0);
+            engine::worker_main(def, tier, seed, workers, index, Path::new(&args[7]), only, start);
         }
         "exec-case" => {
             let def = props::find(&args[2]).unwrap();
@@ -83,7 +84,7 @@ fn main() {
             let prog = model::Program::from_json("file", f, Some(txt), json).unwrap();
             let picks: Vec<u32> = args[3..].iter().filter_map(|a| a.parse().ok()).collect();
             host::set_quiet(false);
-            let out = host::run_case_thread(1, 7, 1_000_000, move || {
+            let out = host::run_case_thread(1, 7, 1_000_000, 60, move || {
                 let mut rng = rng::Rng::new(1);
                 let mut cfg = props::default_host(&prog, &mut rng);
                 cfg.handler = true; cfg.fallbacks = true;
@@ -136,7 +137,7 @@ fn main() {
                         bytes += p.json.len();
                         let p2 = p.clone();
                         let seed = rng.next_u64();
-                        let st = host::run_case_thread(seed, 7, 200_000, move || {
+                        let st = host::run_case_thread(seed, 7, 200_000, 60, move || {
                             let mut rng = rng::Rng::new(seed);
                             let cfg = props::default_host(&p2, &mut rng);
                             let mut out: Vec<String> = vec![];
@@ -191,11 +192,50 @@ fn main() {
                 }
             }
         }
+        "builds" => {
+            if let Some(def) = args.get(2).and_then(|id| props::find(id)) {
+                for b in def.sub_builds {
+                    println!("{}", b.0);
+                }
+            }
+        }
+        "digest-case" => {
+            // digest-case <ID> <replay file>: digest of the main run's event log in this build
+            let def = props::find(&args[2]).unwrap();
+            let rf: model::ReplayFile = serde_json::from_slice(&std::fs::read(&args[3]).unwrap()).unwrap();
+            let mut case = rf.case.clone();
+            case.program.reanalyze();
+            let r = engine::exec_on_thread(def, &case);
+            println!("{:016x}", r.digest);
+        }
         "replay" => {
             let id = args.get(2).unwrap_or_else(|| usage());
             let def = props::find(id).unwrap_or_else(|| usage());
             let file = args.get(3).unwrap_or_else(|| usage());
             let quiet = args.iter().any(|a| a == "--quiet");
+            {
+                let rf: model::ReplayFile = serde_json::from_slice(&std::fs::read(file).expect("read replay")).expect("parse replay");
+                if rf.class == "profile-divergence" {
+                    let mut case = rf.case.clone();
+                    case.program.reanalyze();
+                    let ours = format!("{:016x}", engine::exec_on_thread(def, &case).digest);
+                    let other = engine::build_bin(&rf.site);
+                    let out = std::process::Command::new(&other).args(["digest-case", id, file]).output().expect("spawn other build");
+                    let theirs = String::from_utf8_lossy(&out.stdout).trim().to_string();
+                    println!("digest in {}: {ours}; in {}: {theirs}", engine::build_name(), rf.site);
+                    if ours != theirs {
+                        println!("VIOLATION property={} replay={}", def.id, file);
+                        std::process::exit(1);
+                    }
+                    std::process::exit(0);
+                }
+                if rf.build != engine::build_name() {
+                    // the violation was found in another build: replay it there
+                    let other = engine::build_bin(&rf.build);
+                    let st = std::process::Command::new(&other).args(&args[1..]).status().expect("spawn other build");
+                    std::process::exit(st.code().unwrap_or(2));
+                }
+            }
             let (rf, vs) = engine::replay_file(def, Path::new(file));
             let same = vs.iter().find(|v| v.signature() == rf.violation.signature());
             match same {
